@@ -19,6 +19,9 @@ OWN = {
 REF = ["ref-V1", "ref-V1-perm", "ref-V1-bep47", "ref-V2", "ref-HY-notrail",
        "ref-HY-trail", "ref-V1-extra", "ref-V2-extra", "ref-V1-bep47x2"]
 PADDED_V1 = {"own-v1-aligned", "ref-V1-bep47", "ref-V1-bep47x2"}
+# env form 'deep': 24 nested directories with 200-byte names (absolute path of
+# the content > 4800 bytes > PATH_MAX)
+DEEP_NAMES = [f"lv{i:02d}-" + "d" * 195 for i in range(24)]
 
 
 def ref_meta(family, tree, P, B):
@@ -171,6 +174,15 @@ class RecheckCheck:
             "the second answer must be the intact one",
             "intact content is also given through a symbolic link named like "
             "the torrent whose target directory has another name",
+            "environment forms at real scale (library and CLI, every family, "
+            "intact + each removal + one flip per file): spellings of the "
+            "content path, a symlinked sub-directory, files removed with "
+            "their directories, sparse storage, and 'deep': the content "
+            "moved 24 directories with 200-byte names down, so that its "
+            "absolute path (> 4800 bytes) exceeds PATH_MAX and only a path "
+            "relative to a working directory inside the tree can name it "
+            "(`top`, `./top`, the parent as `.`, the root as `.` from "
+            "inside, `..` from a sub-directory)",
             "entry points: Checker(metafile, path).results() everywhere; the "
             "CLI `recheck` for intact and removal cases at real scale",
             "C16: v1 metafiles with padding entries are judged only where the "
@@ -316,10 +328,12 @@ class RecheckCheck:
         # environment forms of the content and of the path naming it (real
         # scale): spellings of the content path, a sub-directory reached
         # through a symbolic link, files removed together with their
-        # directories, files stored with holes
+        # directories, files stored with holes, content that lies so deep
+        # that only a relative path can name it (its absolute path is longer
+        # than PATH_MAX)
         for sh, v in (("D3", [20000, 40000, 5]), ("D4n", [5, 40000, 0, 33000]),
                       ("S1", [40000])):
-            for form in ("spell", "linked-subdir", "prune", "sparse"):
+            for form in ("spell", "linked-subdir", "prune", "sparse", "deep"):
                 if sh == "S1" and form in ("linked-subdir", "prune"):
                     continue
                 gs.insert(0, {"kind": "env", "form": form, "shape": sh,
@@ -762,8 +776,28 @@ class RecheckCheck:
         return found
 
     def run_env(self, g, res):
+        """Environment forms at real scale (working directory and descriptors
+        restored, the deep tree removed, whatever happens inside)."""
+        import shutil
+        home = os.open(".", os.O_RDONLY)
+        keep = {"fds": [], "trees": []}
+        try:
+            return self._run_env(g, res, keep, home)
+        finally:
+            os.chdir(home)
+            os.close(home)
+            for fd in keep["fds"]:
+                os.close(fd)
+            for t in keep["trees"]:
+                # descriptor-relative removal: works below PATH_MAX-long paths
+                shutil.rmtree(t, ignore_errors=True)
+                if os.path.lexists(t):
+                    raise core.InfraError("deep scratch tree not removed: " + t)
+
+    def _run_env(self, g, res, keep, home):
         """Environment forms at real scale; every family; intact content and
         each single removal / one flip per file."""
+        import contextlib
         import shutil
         seed, form = g["seed"], g["form"]
         P = 16384
@@ -819,6 +853,43 @@ class RecheckCheck:
                                  "link/../" + world.ROOT_NAME, twin))
                 variants.append(("link/..-lexical-damaged", parent,
                                  "link/../" + world.ROOT_NAME, twin))
+            deepfd = None
+            if form == "deep":
+                # the payload is moved DEEP_LEVELS directories with 200-byte
+                # names down, so that its absolute path (> 4800 bytes) exceeds
+                # PATH_MAX: it can be named only relative to a working
+                # directory inside the tree (the kernel resolves such a path
+                # from the cwd inode; no limit applies to the cwd itself).
+                # Built and entered one relative step at a time.
+                keep["trees"].append(os.path.join(base, DEEP_NAMES[0]))
+                os.chdir(base)
+                for nm in DEEP_NAMES:
+                    os.mkdir(nm)
+                    os.chdir(nm)
+                os.rename(root, world.ROOT_NAME)
+                deepfd = os.open(".", os.O_RDONLY)
+                keep["fds"].append(deepfd)
+                try:
+                    os.stat(os.path.join(os.getcwd(), world.ROOT_NAME))
+                    raise core.InfraError("deep form: the absolute path of "
+                                          "the content is still usable")
+                except OSError:
+                    pass
+                rel_root = world.ROOT_NAME
+                variants = [("deep-rel", deepfd, rel_root, rel_root),
+                            ("deep-./rel", deepfd, "./" + rel_root, rel_root),
+                            ("deep-parent-dot", deepfd, ".", rel_root)]
+                if not single:
+                    fd = os.open(rel_root, os.O_RDONLY)
+                    keep["fds"].append(fd)
+                    variants.append(("deep-dot", fd, ".", rel_root))
+                    sub = next((rel[0] for rel, _ in files if len(rel) > 1),
+                               None)
+                    if sub:
+                        fd = os.open(os.path.join(rel_root, sub), os.O_RDONLY)
+                        keep["fds"].append(fd)
+                        variants.append(("deep-dotdot", fd, "..", rel_root))
+                os.chdir(home)
             dmgs = [()]
             for i, (rel, data) in enumerate(files):
                 if data:
@@ -828,7 +899,23 @@ class RecheckCheck:
             def target(tree_root, rel):
                 return os.path.join(tree_root, *rel) if rel else tree_root
 
+            @contextlib.contextmanager
+            def inside(fd):
+                if fd is None:
+                    yield
+                    return
+                os.chdir(fd)
+                try:
+                    yield
+                finally:
+                    os.chdir(home)
+
             def set_state(tree_root, changed, restore=False):
+                # (deep form: tree_root is relative to the deep directory)
+                with inside(deepfd):
+                    set_state_here(tree_root, changed, restore)
+
+            def set_state_here(tree_root, changed, restore):
                 for i in changed:
                     rel, orig = files[i]
                     pth = target(tree_root, rel)
@@ -842,7 +929,8 @@ class RecheckCheck:
                                 os.rmdir(d)
                                 d = os.path.dirname(d)
                     else:
-                        os.makedirs(os.path.dirname(pth), exist_ok=True)
+                        if os.path.dirname(pth):
+                            os.makedirs(os.path.dirname(pth), exist_ok=True)
                         with open(pth, "wb") as f:
                             f.write(data)
 
@@ -868,14 +956,13 @@ class RecheckCheck:
                             continue
                         want, _v, _t = model.recheck_model(meta, disk, REAL_B)
                         for cli in (False, True):
-                            oldcwd = os.getcwd()
                             try:
-                                if cwd:
-                                    os.chdir(cwd)
+                                if cwd is not None:
+                                    os.chdir(cwd)   # a path or a descriptor
                                 self.last_printed = None
                                 got = self.run_impl(mpath, arg, cli=cli)
                             finally:
-                                os.chdir(oldcwd)
+                                os.chdir(home)
                             res.states += 1
                             res.transitions += 1
                             res.evals += 1
